@@ -6,6 +6,7 @@ import (
 	"fmt"
 	"math"
 	"sort"
+	"strings"
 
 	"github.com/tuneinsight/lattigo/v6/core/rlwe"
 	"github.com/tuneinsight/lattigo/v6/ring"
@@ -89,9 +90,16 @@ func judgeAt(c *eng.Ctx, p rlwe.Parameters, sig string, out *rlwe.Element[ring.P
 	meaningful := bound < f64(Ql)/8
 	c.Distinct(key, meaningful)
 	c.Count("noise_measurements", 1)
+	fam := key
+	if i := strings.IndexByte(key, '/'); i > 0 {
+		fam = key[:i]
+	}
+	c.Count("noise_measurements_"+fam, 1)
 	if meaningful {
 		c.Count("meaningful_bounds", 1)
+		c.Count("meaningful_bounds_"+fam, 1)
 		c.Max("max_noise_over_bound_x1000", int64(1000*f64(st.Max)/bound))
+		c.Max("max_noise_over_bound_x1000_"+fam, int64(1000*f64(st.Max)/bound))
 	}
 	return c.Check(f64(st.Max) <= bound, sig, func() string {
 		return fmt.Sprintf("%s: |phase-expected|inf=2^%.1f bound=2^%.1f Q_level=2^%d", detail(), st.MaxLog2, math.Log2(bound), Ql.BitLen())
